@@ -455,7 +455,7 @@ Proof.
   destruct d as [w|x|], d' as [w'|x'|]; cbn [val_eqb] in Hd; try discriminate; try (cbn [res_rel]; reflexivity).
   apply Qeq_bool_iff in Hd. cbv zeta.
   assert (rnd (w * SR) = rnd (w' * SR')) as E by (apply rnd_comp; rewrite Hd, HS; reflexivity).
-  rewrite <- E. destruct (rnd (w * SR) <? 2)%Z; [cbn [res_rel]; reflexivity|].
+  rewrite <- E. destruct (rnd (w * SR) <? min_points)%Z; [cbn [res_rel]; reflexivity|].
   apply (res_rel_bind eq); [exact IH|]. intros r r' <-. cbn [res_rel]. reflexivity.
 Qed.
 
